@@ -3,7 +3,7 @@
 # neighbouring checks most likely to see it (all 13 would take > 5 h for ~180 changes; the full matrix of the
 # first rounds is kept in their checks.log history in git).  Writes checks.log and meta.json (detected_by,
 # missed_by, checks_run).  Never edit /verif/sim or /repo while this runs.
-#   tools/refresh_matrix.sh [id ...]        ALL=1 runs all 13 checks for the given ids
+#   tools/refresh_matrix.sh [id ...]        ALL=1 runs all 13 checks for the given ids, TARGET_ONLY=1 only the target check
 set -u
 cd /verif
 ids=("$@"); [ ${#ids[@]} -eq 0 ] && ids=($(ls seeded))
@@ -12,7 +12,7 @@ for x in "${ids[@]}"; do
   DST=/verif/seeded/$x; [ -f "$DST/patch.diff" ] || continue
   T=${x%%-*}
   if [ -n "${ALL:-}" ]; then CH="C03 C04 C05 C06 C07 C08 C09 C10 C13 C16 C18 C19 C20"; else
-    CH="$T ${NB[$T]}"; grep -q "batch_tools" "$DST/patch.diff" && CH="$CH C13"
+    CH="$T ${NB[$T]}"; [ -n "${TARGET_ONLY:-}" ] && CH="$T"; grep -q "batch_tools" "$DST/patch.diff" && CH="$CH C13"
     CH=$(echo $CH | tr ' ' '\n' | awk '!s[$0]++' | tr '\n' ' ')
   fi
   res=$(/verif/tools/try_seeded.sh "$DST/patch.diff" $CH 2>&1)
